@@ -1245,6 +1245,27 @@ func (a *Agent) gatherCandidatesRelay(ctx context.Context, urls []*stun.URI) {
 						return
 					}
 
+					// The relayed address family is chosen by the TURN server: only publish the
+					// relay candidate when its network type is configured.
+					relayNetworkType := NetworkTypeUDP6
+					if rAddr.IP.To4() != nil {
+						relayNetworkType = NetworkTypeUDP4
+					}
+					relayNetworkTypeEnabled := false
+					for _, networkType := range configuredNetworkTypes(a.networkTypes) {
+						if networkType == relayNetworkType {
+							relayNetworkTypeEnabled = true
+						}
+					}
+					if !relayNetworkTypeEnabled {
+						closeRelayConn()
+						client.Close()
+						closeConnAndLog(locConn, a.log,
+							"TURN address %s has network type %s which is not enabled", rAddr.IP, relayNetworkType)
+
+						return
+					}
+
 					// Relay allocations currently produce UDP relay endpoints regardless of
 					// whether the TURN control connection uses UDP/TCP/TLS/DTLS.
 					a.addRelayCandidates(ctx, relayEndpoint{
